@@ -435,7 +435,7 @@ class vDDDLists:
     @staticmethod
     def from_ical(ical, timezone=None):
         out = []
-        ical_dates = ical.split(",")
+        ical_dates = to_unicode(ical).split(",")
         for ical_dt in ical_dates:
             out.append(vDDDTypes.from_ical(ical_dt, timezone=timezone))
         return out
@@ -544,6 +544,7 @@ class vDDDTypes(TimeBase):
     def from_ical(cls, ical, timezone=None):
         if isinstance(ical, cls):
             return ical.dt
+        ical = to_unicode(ical)
         u = ical.upper()
         if u.startswith(('P', '-P', '+P')):
             return vDuration.from_ical(ical)
@@ -702,6 +703,7 @@ class vDatetime(TimeBase):
             >>> vDatetime.from_ical("20210302T101500", timezone)
             datetime.datetime(2021, 3, 2, 10, 15, tzinfo=ZoneInfo(key='Europe/Berlin'))
         """
+        ical = to_unicode(ical)
         tzinfo = None
         if isinstance(timezone, str):
             tzinfo = tzp.timezone(timezone)
@@ -834,6 +836,7 @@ class vDuration(TimeBase):
 
     @staticmethod
     def from_ical(ical):
+        ical = to_unicode(ical)
         match = DURATION_REGEX.match(ical)
         if not match:
             raise ValueError(f'Invalid iCalendar duration: {ical}')
@@ -983,6 +986,7 @@ class vPeriod(TimeBase):
     def from_ical(ical, timezone=None):
         if isinstance(ical, vPeriod):
             return ical.dt
+        ical = to_unicode(ical)
         try:
             start, end_or_duration = ical.split('/')
             start = vDDDTypes.from_ical(start, timezone=timezone)
@@ -1349,6 +1353,7 @@ class vRecur(CaselessDict):
     def from_ical(cls, ical: str):
         if isinstance(ical, cls):
             return ical
+        ical = to_unicode(ical)
         try:
             recur = cls()
             for pairs in ical.split(';'):
